@@ -1765,6 +1765,7 @@ class Polygon(Point, projective.Polygon):
         """
         radius = genus_g_surface_radius(g, **kwargs)
 
+        base_ring = kwargs.get("base_ring")
         if base_ring is not None:
             radius = base_ring(radius)
         return Polygon.regular_polygon(
